@@ -255,6 +255,8 @@ pub struct ExecExtra {
     pub no_force: bool,
     /// --http-retry-count (HTTP only)
     pub retries: u32,
+    /// --http-retry-delay in seconds (HTTP only)
+    pub retry_delay: u64,
     /// --http-timeout in seconds (HTTP, CLI only)
     pub timeout: Option<u64>,
     /// pass the (existing, regular) output itself as one more --seed, under this spelling.
@@ -295,7 +297,7 @@ pub fn execute_with(f: &Fam, presented: Option<&[u8]>, extra: &ExecExtra) -> Obs
                 let _ = std::fs::remove_file("a.cba");
             });
         }
-        let mut opts = CloneOpts { http: f.http, seed_output: f.seed_output, verify_output: f.verify_output, buffers: f.buffers, verbose: f.verbose, verify_header: extra.verify_header.clone(), retries: if f.http { extra.retries } else { 0 }, timeout: if f.http { extra.timeout } else { None }, ..Default::default() };
+        let mut opts = CloneOpts { http: f.http, seed_output: f.seed_output, verify_output: f.verify_output, buffers: f.buffers, verbose: f.verbose, verify_header: extra.verify_header.clone(), retries: if f.http { extra.retries } else { 0 }, retry_delay: if f.http { extra.retry_delay } else { 0 }, timeout: if f.http { extra.timeout } else { None }, ..Default::default() };
         let mut stdin_data = None;
         let mut blockdev_seeds: Vec<String> = Vec::new();
         for (i, (_, data)) in f.seeds.iter().enumerate() {
@@ -409,7 +411,7 @@ pub fn execute_with(f: &Fam, presented: Option<&[u8]>, extra: &ExecExtra) -> Obs
         out.with(|g| g.fixed_size = f.blockdev);
         let seeds: Vec<SimSource> = f.seeds.iter().map(|(_, d)| SimSource::drawn(d.clone())).collect();
         let (r, archive_file) = if f.http {
-            (scen::run_lib_clone_http(out.clone(), seeds, f.seed_output, 0, 0), None)
+            (scen::run_lib_clone_http(out.clone(), seeds, f.seed_output, extra.retries, extra.retry_delay), None)
         } else {
             let af = SimFile::drawn(archive_bytes.clone());
             let reader = bitar::archive_reader::IoReader::new(af.clone());
